@@ -144,20 +144,28 @@ def bind():
     import logging
 
     so = kernel_so()
-    import thejoker.src  # noqa: F401  (package shell only)
-
     if so is not None:
         name = "thejoker.src.fast_likelihood"
-        loader = importlib.machinery.ExtensionFileLoader(name, so)
-        spec = importlib.util.spec_from_file_location(name, so, loader=loader)
-        mod = importlib.util.module_from_spec(spec)
-        sys.modules[name] = mod
-        loader.exec_module(mod)
-        import thejoker.src as _src
+        import importlib.abc
 
-        _src.fast_likelihood = mod
+        class _KernelFinder(importlib.abc.MetaPathFinder):
+            """Serve the freshly built kernel at the point where thejoker's own import chain asks for it."""
+
+            def find_spec(self, fullname, path, target=None):
+                if fullname == name:
+                    loader = importlib.machinery.ExtensionFileLoader(fullname, so)
+                    return importlib.util.spec_from_file_location(fullname, so, loader=loader)
+                return None
+
+        assert name not in sys.modules, "thejoker's kernel was imported before the binding"
+        sys.meta_path.insert(0, _KernelFinder())
     import thejoker  # noqa: F401
+    import thejoker.src.fast_likelihood as _k
+    import thejoker.thejoker as _t
 
+    if so is not None:
+        assert os.path.realpath(_k.__file__) == os.path.realpath(so), (_k.__file__, so)
+    assert _t.CJokerHelper is _k.CJokerHelper
     assert os.path.realpath(os.path.dirname(thejoker.__file__)) == os.path.realpath(
         os.path.join(REPO, "thejoker")
     ), "thejoker was not imported from the working tree"
